@@ -36,6 +36,7 @@ var (
 	flagReplay   = flag.String("replay", "", "replay file")
 	flagReplays  = flag.String("replaydir", "", "directory for replay files of violations")
 	flagTrace    = flag.Bool("trace", false, "print events as they happen")
+	flagKnown    = flag.String("known", "", "open known findings as clause|key entries separated by ';' (key may end in *): not minimised, no replay file")
 	flagMinBudg  = flag.Duration("minbudget", 45*time.Second, "wall-clock budget for minimisation per violation")
 	flagDeadline = flag.Duration("deadline", 0, "wall-clock budget for this worker (0 = none)")
 	flagList     = flag.Bool("list", false, "list registered checks")
@@ -158,6 +159,7 @@ type Check struct {
 	Real   []string            // components running real code
 	Stub   []string            // stubbed components
 	Rule   string              // how cases are generated and what makes one non-trivial
+	NoBubble bool              // run outside a synctest bubble (no clock or scheduling involved)
 }
 
 var registry []*Check
@@ -236,6 +238,10 @@ func execute(t *testing.T, ck *Check, run int, seed uint64, scen, sched *simrt.T
 					Msg: fmt.Sprintf("%v\n%s", r, debug.Stack())})
 			}
 		}()
+		if ck.NoBubble {
+			ck.Run(ctx)
+			return
+		}
 		synctest.Test(t, func(t *testing.T) {
 			simrt.ResetRand(seed)
 			func() {
@@ -526,7 +532,7 @@ func TestVerif(t *testing.T) {
 		for _, v := range r.Violations {
 			id := v.Clause + "|" + v.Key
 			seenViol[id]++
-			if seenViol[id] > 1 || *flagReplays == "" {
+			if seenViol[id] > 1 || *flagReplays == "" || isKnownOpen(v) {
 				continue // one minimised replay file per distinct clause+key per worker
 			}
 			sc, sd, fin := minimise(t, ck, r, v, *flagMinBudg)
@@ -552,6 +558,21 @@ func TestVerif(t *testing.T) {
 		}
 		os.WriteFile(*flagOut+".hashes", buf, 0o644)
 	}
+}
+
+// isKnownOpen: the violation is listed as an open known finding (the orchestrator prints the
+// KNOWN-FINDING line); minimising it again on every run would only burn the budget.
+func isKnownOpen(v Violation) bool {
+	for _, e := range strings.Split(*flagKnown, ";") {
+		parts := strings.SplitN(e, "|", 2)
+		if len(parts) != 2 || parts[0] != v.Clause {
+			continue
+		}
+		if k := parts[1]; k == v.Key || (strings.HasSuffix(k, "*") && strings.HasPrefix(v.Key, strings.TrimSuffix(k, "*"))) {
+			return true
+		}
+	}
+	return false
 }
 
 func doReplay(t *testing.T) {
